@@ -251,3 +251,21 @@ Example fold_option_counts_method_nonvacuous :
   fp_fold_cm CMMin a 8 0 = Ok (mkfp KCount 8 (Some 5) [1; 4] [(1, 2 # 1); (4, 1 # 1)] None) /\
   fp_fold_cm CMSum a 8 0 = Ok (mkfp KCount 8 (Some 5) [1; 4] [(1, 5 # 1); (4, 8 # 1)] None).
 Proof. vm_compute. repeat split. Qed.
+
+(* ============ the fingerprinter route (model M1): asking for b bits = folding the 2^32-bit fingerprint ============ *)
+From E3FP Require Import Base.Murmur3 Model.Geometry Model.Stereo Model.E3FP Gen.Constants Proofs.FprinterFold.
+
+Theorem fprinter_bits_eq_fold : forall o counts bits st req mask g y z,
+  fingerprint_query o counts fprinter_bits st req mask = Ok g ->
+  fp_fold g bits 0 = Ok y ->
+  fingerprint_query o counts bits st req mask = Ok z ->
+  fkind y = fkind z /\ fbits y = fbits z /\ flevel y = flevel z /\ fname y = fname z /\ fidx y = fidx z /\
+  (counts = false -> y = z) /\ (forall j, cget (fcnt y) j == cget (fcnt z) j).
+Proof. exact fprinter_bits_eq_fold. Qed.
+Print Assumptions fprinter_bits_eq_fold.
+
+Theorem fprinter_two_step_accepts : forall o counts bits st req mask g y,
+  fingerprint_query o counts fprinter_bits st req mask = Ok g -> fp_fold g bits 0 = Ok y ->
+  exists z, fingerprint_query o counts bits st req mask = Ok z.
+Proof. exact fprinter_two_step_accepts. Qed.
+Print Assumptions fprinter_two_step_accepts.
